@@ -125,7 +125,8 @@ CLAIMS = {
         "every spelling; an inlined comparison is taken only for `signal CMP int -> 1` deciders whose only consumer (complete usage index) is the property write, its three values are passed "
         "unchanged through comparison_data to the circuit condition, removal is scheduled only there and the entity is re-wired to the decider's input; any()/all() inlining accepts only "
         "`CMP constant`, maps to the right wildcard and passes operator/constant unchanged; entity outputs are sourced by the entity. NOT decided: that the named signal arrives alone and "
-        "undoubled on the entity's connector for a given layout; entity contents. A comparison exposed under a name of its own is not inlined away.",
+        "undoubled on the entity's connector for a given layout; entity contents. A comparison exposed under a name of its own is not inlined away; the condition is set on entities "
+        "without an enable flag too; the condition's signal carries the category of its own name (R13).",
    technique="sibling-branch comparison + key/value pass-through over dict displays + guard-chain analysis",
    ref="DESIGN.md §2 C06"),
  "C12": dict(
